@@ -2,9 +2,9 @@ package compiler
 
 import (
 	"fmt"
-	"strings"
 
 	"github.com/grafana/cog/internal/ast"
+	"github.com/grafana/cog/internal/tools"
 )
 
 var _ Pass = (*RenameObject)(nil)
@@ -12,19 +12,22 @@ var _ Pass = (*RenameObject)(nil)
 type RenameObject struct {
 	From ObjectReference
 	To   string
+
+	// names (as spelled in the schemas) of the objects being renamed
+	renamedNames []string
 }
 
 func (pass *RenameObject) Process(schemas []*ast.Schema) ([]*ast.Schema, error) {
 	// nothing to rename (and no reference to rewrite) if the object doesn't exist.
-	found := false
+	pass.renamedNames = nil
 	for _, schema := range schemas {
 		schema.Objects.Iterate(func(_ string, object ast.Object) {
 			if pass.From.Matches(object) {
-				found = true
+				pass.renamedNames = append(pass.renamedNames, object.Name)
 			}
 		})
 	}
-	if !found {
+	if len(pass.renamedNames) == 0 {
 		return schemas, nil
 	}
 
@@ -41,12 +44,18 @@ func (pass *RenameObject) Process(schemas []*ast.Schema) ([]*ast.Schema, error) 
 	}
 
 	for _, schema := range schemas {
-		if schema.Package == pass.From.Package && strings.EqualFold(schema.EntryPoint, pass.From.Object) {
+		if pass.refersToRenamedObject(schema.Package, schema.EntryPoint) {
 			schema.EntryPoint = pass.To
 		}
 	}
 
 	return schemas, nil
+}
+
+// refersToRenamedObject tells if a reference (as spelled in the schemas)
+// points to one of the objects being renamed.
+func (pass *RenameObject) refersToRenamedObject(pkg string, name string) bool {
+	return pkg == pass.From.Package && tools.ItemInList(name, pass.renamedNames)
 }
 
 func (pass *RenameObject) processObject(visitor *Visitor, schema *ast.Schema, object ast.Object) (ast.Object, error) {
@@ -68,7 +77,7 @@ func (pass *RenameObject) processObject(visitor *Visitor, schema *ast.Schema, ob
 }
 
 func (pass *RenameObject) processRef(_ *Visitor, _ *ast.Schema, def ast.Type) (ast.Type, error) {
-	if pass.From.MatchesRef(def.AsRef()) {
+	if pass.refersToRenamedObject(def.Ref.ReferredPkg, def.Ref.ReferredType) {
 		def.Ref.ReferredType = pass.To
 	}
 
@@ -77,7 +86,7 @@ func (pass *RenameObject) processRef(_ *Visitor, _ *ast.Schema, def ast.Type) (a
 
 func (pass *RenameObject) processConstantRef(_ *Visitor, _ *ast.Schema, def ast.Type) (ast.Type, error) {
 	constantRef := def.AsConstantRef()
-	if pass.From.MatchesRef(ast.RefType{ReferredPkg: constantRef.ReferredPkg, ReferredType: constantRef.ReferredType}) {
+	if pass.refersToRenamedObject(constantRef.ReferredPkg, constantRef.ReferredType) {
 		def.ConstantReference.ReferredType = pass.To
 	}
 
@@ -88,11 +97,9 @@ func (pass *RenameObject) processDisjunction(visitor *Visitor, schema *ast.Schem
 	var err error
 
 	// discriminator mappings refer to objects of the current schema by name.
-	if schema.Package == pass.From.Package {
-		for discriminator, typeName := range def.Disjunction.DiscriminatorMapping {
-			if strings.EqualFold(typeName, pass.From.Object) {
-				def.Disjunction.DiscriminatorMapping[discriminator] = pass.To
-			}
+	for discriminator, typeName := range def.Disjunction.DiscriminatorMapping {
+		if pass.refersToRenamedObject(schema.Package, typeName) {
+			def.Disjunction.DiscriminatorMapping[discriminator] = pass.To
 		}
 	}
 
